@@ -1,6 +1,7 @@
 """Canonical form applied to every module right after parsing, so that rules see one shape for
 source variants that mean the same:
 
+  x: T = e (in a function)   ->  x = e            (annotation dropped; a bare `x: T` becomes `pass`)
   t = t OP e                 ->  t OP= e          (Name / Attribute / Subscript targets, left operand is the target)
   not (a OP b)               ->  a OP' b          (==/!=, </>=, >/<=, is/is not, in/not in; single comparison)
   not (a and b), not (a or b)->  De Morgan        (negations pushed down to the atoms)
@@ -77,6 +78,36 @@ def _polarity(e) -> int:
 
 
 class Canon(ast.NodeTransformer):
+    def __init__(self):
+        self.in_function = 0
+
+    def _func(self, node):
+        self.in_function += 1
+        try:
+            self.generic_visit(node)
+        finally:
+            self.in_function -= 1
+        return node
+    visit_FunctionDef = _func
+    visit_AsyncFunctionDef = _func
+
+    def visit_ClassDef(self, node):
+        # class bodies keep their annotated assignments (dataclass fields, declared attribute types)
+        saved, self.in_function = self.in_function, 0
+        try:
+            self.generic_visit(node)
+        finally:
+            self.in_function = saved
+        return node
+
+    def visit_AnnAssign(self, node):
+        self.generic_visit(node)
+        if self.in_function:
+            if node.value is None:
+                return ast.copy_location(ast.Pass(), node)
+            return ast.copy_location(ast.Assign(targets=[node.target], value=node.value), node)
+        return node
+
     # --- truth-valued positions
     def visit_If(self, node):
         self.generic_visit(node)
